@@ -222,8 +222,28 @@ class GVec(_Generic):
     def __generic_iter__(self):
         raise Unsupported("iteration over a per-row vector (data-dependent loop)")
     def sum(self, *a, **k): raise Unsupported("reduction over rows (sum)")
-    def max(self, *a, **k): raise Unsupported("reduction over rows (max)")
-    def min(self, *a, **k): raise Unsupported("reduction over rows (min)")
+    def max(self, *a, **k): return col_extreme(self, "max")
+    def min(self, *a, **k): return col_extreme(self, "min")
+    def __sym_minmax__(self, which): return col_extreme(self, which)
+    dedup = False
+    def drop_duplicates(self, *a, **k):
+        r = self._new(self.val)
+        r.dedup = True
+        return r
+    def isin(self, other):
+        if isinstance(other, GVec):
+            return self._new(SB(other.count_of(self.val) >= 1), "series")
+        raise Unsupported("isin with a non-column argument")
+    def count_of(self, v):
+        """number of rows of this column whose value equals v (uninterpreted, >= 0; the generic row itself counts)"""
+        cx = ctx()
+        fn = z3.Function(f"count!{self.space.pos_id}!{self.name}", z3.RealSort(), z3.IntSort())
+        t = sym.real(to_z3(v))
+        cx.axiom("count_of(column, v) >= 0, and >= 1 for the value of a present row", z3.And(fn(t) >= 0, z3.Implies(self.present, fn(sym.real(to_z3(self.val))) >= 1)))
+        c = fn(t)
+        if self.dedup:
+            return SV(z3.If(c >= 1, z3.IntVal(1), z3.IntVal(0)))
+        return SV(c)
     def sqrt(self): return self._new(_u(self.val, "sqrt"))
     def __repr__(self): return f"GVec({self.val}, {self.space}, {self.kind})"
 
@@ -236,6 +256,17 @@ def _u(v, fn):
 def _eq(a, b):
     r = a == b
     return r
+
+
+def col_extreme(vec, which):
+    """min()/max() of a column of a non-empty table: a number m with m <= (>=) the generic row's value (attained by some
+    row, which no obligation here needs)"""
+    cx = ctx()
+    m = cx.fresh(f"col{which}")
+    v = sym.real(to_z3(vec.val))
+    cx.oblige("safe.reduction-of-empty-table", to_z3(vec.space.n) >= 1, kind="safe", detail=f"{which}() of an empty column raises ValueError")
+    cx.axiom(f"{which}(column) bounds every present row's value", z3.Implies(vec.present, (m <= v) if which == "min" else (m >= v)))
+    return SV(m)
 
 
 def _band(a, b):
@@ -590,6 +621,10 @@ class GFrame(_Generic):
     def _clone(self, **kw):
         f = GFrame(self.cols, self.row, self.space, self.present, self.perm)
         f.objcols = set(getattr(self, "objcols", ()))
+        f.mult = self.mult
+        for a in ("parts", "selectors"):
+            if hasattr(self, a):
+                setattr(f, a, getattr(self, a))
         for k, v in kw.items(): setattr(f, k, v)
         return f
 
@@ -820,7 +855,16 @@ class GFrame(_Generic):
         raise Unsupported("DataFrame.drop(index=...)")
 
     def sort_values(self, *a, **k): raise Unsupported("sort_values on a generic table")
-    def merge(self, *a, **k): raise Unsupported("merge on a generic table")
+    mult = None  # multiplicity of the generic row in the table (z3 Int) when it can differ from 1
+    def merge(self, right, how="inner", on=None, **k):
+        if how != "inner" or not isinstance(right, GVec) or right.name is None or right.name not in self.row:
+            raise Unsupported("merge form")
+        # inner merge on the shared column: a left row appears once per matching right row (assumed pandas contract)
+        c = right.count_of(self.row[right.name])
+        sp = Space(tag="m")
+        r = GFrame(self.cols, self.row, sp, z3.And(self.present, to_z3(c) >= 1))
+        r.mult = to_z3(c)
+        return r
     def groupby(self, *a, **k): raise Unsupported("groupby on a generic table")
     def drop_duplicates(self, *a, **k): raise Unsupported("drop_duplicates on a generic table")
     def __repr__(self): return f"GFrame({self.cols}, {self.space})"
